@@ -32,7 +32,7 @@ func genUni(t *rapid.T, label string) string {
 	return rapid.StringOfN(rapid.SampledFrom(uniRunes), 0, 10, -1).Draw(t, label)
 }
 
-var boundPool = []float64{0, 1, 2, 3, 4, 5, -1, -5, 0.5, 1.5, 2.5, 2.4, 2.6, -0.5, -42, math.NaN(), math.Inf(1), math.Inf(-1), 1e10, -1e10, 9.3e18, 1.4999999999999998,
+var boundPool = []float64{0, math.Copysign(0, -1), 1, 2, 3, 4, 5, -1, -5, 0.5, 1.5, 2.5, 2.4, 2.6, -0.5, -42, math.NaN(), math.Inf(1), math.Inf(-1), 1e10, -1e10, 9.3e18, 1.4999999999999998,
 	0.49999999999999994, -0.49999999999999994, 4503599627370497, 4503599627370495.5, 2.5000000000000004, 0.5000000000000001}
 
 func genBound(t *rapid.T, label string) float64 {
